@@ -38,6 +38,16 @@ class C11(Prop):
             rows, blocks = S.gen_sheet(rng, native=False, bad_rate=0.3 if malformed else 0.0, max_tables=4)
             # table names with repetitions and both orientations
             names = [b["table"]["name"] for b in blocks if b["t"] == "TABLE"]
+            # unusual table blocks: a marker-only stub, names that themselves end in '*'
+            if rng.random() < 0.35:
+                extra = rng.choice([
+                    [["**stub"]], [["**stub*"]], [["**lim**"], ["all"], ["c", "m", "1"]],
+                    [["**s*r"], ["all"], ["c"], ["m"], ["2"]], [["**lim**"], ["all"]], [["**q"], ["all"], ["c"]],
+                ])
+                pos = rng.choice([0, len(rows)])
+                rows = (extra + [[]] + rows) if pos == 0 else (rows + [[]] + extra)
+                c0 = extra[0][0][2:]
+                names.append(c0[:-1] if c0.endswith("*") else c0)
             pairs = []
             for nm in set(names):
                 if rng.random() < 0.5:
